@@ -360,7 +360,10 @@ pub fn gen_ops(rng: &mut Rng, l: &Layout, o: &HistOpts, st: &mut GenStats) -> Ve
 
 /// Swarm-style per-run configuration.
 pub fn swarm_hist(rng: &mut Rng, thorough: bool, faults: bool, resets: bool, nodist: bool) -> HistOpts {
-  let len = if thorough { rng.range(4, 120) } else { rng.range(4, 40) };
+  // one history in 200 is a marathon: what only shows after hundreds of events (a counter, a
+  // capacity, a clean-up that runs every N-th time) is out of reach of short histories
+  let marathon = rng.chance(1, 200);
+  let len = if marathon { if thorough { rng.range(300, 3000) } else { rng.range(300, 1200) } } else if thorough { rng.range(4, 120) } else { rng.range(4, 40) };
   let max_held = if thorough { rng.range(1, 6) } else { rng.range(1, 4) };
   let faulty = faults && rng.chance(1, 2);
   let rate = |rng: &mut Rng| if faulty && rng.chance(1, 2) { rng.range(10, 100) as u64 } else { 0 };
